@@ -530,7 +530,7 @@ SEQUENCE_encode_oer(const asn_TYPE_descriptor_t *td,
         }
         if(ret < 0) ASN__ENCODE_FAILED;
 
-        asn_put_aligned_flush(&extadds);
+        if(asn_put_aligned_flush(&extadds) < 0) ASN__ENCODE_FAILED;
         computed_size += extadds.flushed_bytes;
 
         /* Now, encode extensions */
